@@ -482,6 +482,19 @@ func suiteBridge(e *vh.Env) {
 						return
 					}
 					body, _ := io.ReadAll(req.Body)
+					if req.URL.Path == "/slow-download" {
+						// a response streamed over 11 s (long poll, event stream, slow download)
+						io.WriteString(c, "HTTP/1.1 200 OK\r\nContent-Length: 1100\r\nConnection: close\r\n\r\n")
+						for k := 0; k < 11; k++ {
+							c.Write(bytes.Repeat([]byte{byte('a' + k)}, 100))
+							time.Sleep(time.Second)
+						}
+						return
+					}
+					if req.URL.Path == "/slow-upload" {
+						fmt.Fprintf(c, "HTTP/1.1 200 OK\r\nContent-Length: 64\r\nConnection: close\r\n\r\n%x", sha256.Sum256(body))
+						return
+					}
 					httpSeen <- fmt.Sprintf("%s %s host=%s x=%s body=%x", req.Method, req.RequestURI, req.Host, strings.Join(req.Header["X-Verif"], ","), body)
 					io.WriteString(c, "HTTP/1.1 200 OK\r\nContent-Length: 2\r\nConnection: close\r\n\r\nok")
 				}(c)
@@ -520,5 +533,63 @@ func suiteBridge(e *vh.Env) {
 		e.Eval("http:"+want, true)
 		e.Count("passthrough-http")
 	}
+	if e.N(0, 1) == 1 && e.Want(200000) {
+		// long-lived pass-through exchanges (thorough tier): a download streamed over 11 s and an upload trickled over 7 s
+		var wg sync.WaitGroup
+		wg.Add(2)
+		go func() {
+			defer wg.Done()
+			resp, err := (&http.Transport{DisableKeepAlives: true}).RoundTrip(mustReq("GET", fmt.Sprintf("http://127.0.0.1:%d/slow-download", rig.backendPort), nil))
+			if err != nil {
+				e.Fail("C15:passthrough-error", "slow download: "+err.Error(), 200000, nil, nil, nil)
+				return
+			}
+			got, rerr := io.ReadAll(resp.Body)
+			resp.Body.Close()
+			var want []byte
+			for k := 0; k < 11; k++ {
+				want = append(want, bytes.Repeat([]byte{byte('a' + k)}, 100)...)
+			}
+			if !bytes.Equal(got, want) {
+				e.Fail("C15:passthrough-altered", fmt.Sprintf("a response of 1100 bytes streamed by the backend port over 11 s arrived as %d bytes (read error: %v)", len(got), rerr), 200000, nil, len(got), len(want))
+			}
+			e.Count("passthrough-slow-download")
+		}()
+		go func() {
+			defer wg.Done()
+			pr, pw := io.Pipe()
+			payload := e.Rng.Sub(200001).Bytes(7000)
+			go func() {
+				for k := 0; k < 7; k++ {
+					pw.Write(payload[k*1000 : (k+1)*1000])
+					time.Sleep(time.Second)
+				}
+				pw.Close()
+			}()
+			req := mustReq("POST", fmt.Sprintf("http://127.0.0.1:%d/slow-upload", rig.backendPort), pr)
+			req.ContentLength = int64(len(payload))
+			resp, err := (&http.Transport{DisableKeepAlives: true}).RoundTrip(req)
+			if err != nil {
+				e.Fail("C15:passthrough-error", "slow upload: "+err.Error(), 200001, nil, nil, nil)
+				return
+			}
+			got, _ := io.ReadAll(resp.Body)
+			resp.Body.Close()
+			if want := fmt.Sprintf("%x", sha256.Sum256(payload)); resp.StatusCode != 200 || string(got) != want {
+				e.Fail("C15:passthrough-altered", fmt.Sprintf("a 7000-byte request body uploaded over 7 s: status %d, the backend port's digest of what it received %q, of what was sent %q", resp.StatusCode, truncBytesDrv(got, 64), want), 200001, nil, nil, nil)
+			}
+			e.Count("passthrough-slow-upload")
+		}()
+		wg.Wait()
+		e.Eval("passthrough-slow", true)
+	}
 	close(stopHTTP)
+}
+
+func mustReq(method, u string, body io.Reader) *http.Request {
+	r, err := http.NewRequest(method, u, body)
+	if err != nil {
+		panic(err)
+	}
+	return r
 }
